@@ -374,6 +374,7 @@ def exchange(server, reqbytes, sid, complete_uploads=True, patient=False, track=
         if r["k"] == "data":
             ev["reply"] = {"k": "data", "n": r["n"], "len": len(r["payload"]), "cid": sb.cid_of_payload(r["payload"])}
             sock.sendto(error(0, b"probe done"), addr)
+            time.sleep(0.02)        # whatever ending the probe does to the tree belongs to this exchange
         elif r["k"] in ("ack", "oack"):
             ev["reply"] = {"k": r["k"], "n": r.get("n", 0)} if r["k"] == "ack" else {"k": "oack", "opts": r["opts"]}
             op = struct.unpack(">H", reqbytes[:2])[0] if len(reqbytes) >= 2 else 0
@@ -403,6 +404,7 @@ def exchange(server, reqbytes, sid, complete_uploads=True, patient=False, track=
                         break
             elif op == 1:
                 sock.sendto(error(0, b"probe done"), addr)
+                time.sleep(0.02)
         elif r["k"] == "error":
             ev["reply"] = {"k": "error", "code": r["code"]}
         else:
